@@ -317,11 +317,43 @@ def rule_dep(repo):
     return res
 
 
+@guarded
+def rule_grav(repo):
+    """Gravity is removed from the measured acceleration the same way whether the rotation is supplied or integrated: a = acc - R^-1 g with R the
+    supplied resp. integrated rotation.  The two branches of integrate() are siblings: same sign of the gravity term, same side of the inverse,
+    same gravity vector; a change of convention in the buffer (downward vs. upward vector) has to reach both."""
+    res = RuleResult('C16.GRAV', 'integrate(): both branches (supplied / integrated rotation) remove gravity by the same expression acc - R.Inv() @ self.gravity', floor=2)
+    f = repo.func(IMU, CLS + '.integrate')
+    forms = []
+    for n in ast.walk(f.node):
+        if isinstance(n, ast.Assign) and len(n.targets) == 1 and isinstance(n.targets[0], ast.Name) and \
+                any(isinstance(x, ast.Attribute) and x.attr == 'gravity' for x in ast.walk(n.value)):
+            v = n.value
+            sign = '+' if isinstance(v, ast.BinOp) and isinstance(v.op, ast.Add) else '-' if isinstance(v, ast.BinOp) and isinstance(v.op, ast.Sub) else '?'
+            term = v.right if isinstance(v, ast.BinOp) else v
+            inv = any(isinstance(x, ast.Call) and isinstance(x.func, ast.Attribute) and x.func.attr == 'Inv' for x in ast.walk(term))
+            left = dotted(v.left) if isinstance(v, ast.BinOp) else None
+            neg = any(isinstance(x, ast.UnaryOp) and isinstance(x.op, ast.USub) for x in ast.walk(term))
+            forms.append((n, (n.targets[0].id, left, sign, inv, neg)))
+    if len(forms) < 2:
+        raise AnalysisError('C16.GRAV: found %d gravity-removal assignments in integrate(), expected the two branches' % len(forms))
+    shapes = {fm for _, fm in forms}
+    for n, fm in forms:
+        res.inst({'function': f.fq, 'gravity removal': src(n)[:70], 'form (target, minuend, sign, inverse rotation, negated)': fm, 'agrees with sibling': len(shapes) == 1}, src(n))
+    if len(shapes) != 1:
+        res.add(Finding('C16.GRAV', f, 'the two branches of integrate() remove gravity differently (%s): with a supplied rotation gravity is %s, with the '
+                        'integrated rotation it is %s' % (sorted(shapes), 'added' if forms[0][1][2] == '+' else 'subtracted', 'added' if forms[1][1][2] == '+' else 'subtracted'),
+                        node=forms[0][0], construct='gravity siblings'))
+    elif forms[0][1][2:] != ('-', True, False):
+        res.add(Finding('C16.GRAV', f, 'gravity is not removed as acc - R.Inv() @ self.gravity (%s)' % (forms[0][1],), node=forms[0][0], construct='gravity form'))
+    return res
+
+
 def _rules_core(repo, tier):
     from ..effects import rule_pure
     from ..fresh import rule_fresh
     t = [(IMU, CLS + '.forward'), (IMU, CLS + '.integrate'), (IMU, CLS + '.predict'), (IMU, CLS + '.propagate_cov'), (IMU, CLS + '._check')]
-    return [rule_carry(repo), rule_rank(repo), rule_dir_comp(repo), rule_dep(repo), rule_init(repo), rule_cov(repo),
+    return [rule_grav(repo), rule_carry(repo), rule_rank(repo), rule_dir_comp(repo), rule_dep(repo), rule_init(repo), rule_cov(repo),
             rule_pure(repo, 'C16.PURE', 'the integrator does not write in place into the measurement tensors it is given (dt, gyro, acc, rot, init_state): '
                       'feeding the same stream again, whole or in chunks, starts from the same data', t),
             rule_fresh(repo, 'C16.FRESH', 'nothing the integrator writes in place is loaded from the integrator object (the carried state is rebound, '
